@@ -19,8 +19,11 @@ property text rather than by the reference:
 
 The spec coincides with `MemoryStorage` on histories that respect what raft guarantees
 (entries contiguous; a conflicting save starts above the snapshot index; snapshot indexes do
-not decrease and do not lie beyond the log) — the correspondence harness checks exactly that,
-on the real reference.
+not decrease) — the correspondence harness checks exactly that, on the real reference.
+A snapshot saved with an index beyond the log is an install and resets the log
+(`SpecState.save`); the store does not do that (known finding
+`snapshot_install_keeps_old_entries`), so the refinement theorem carries the hypothesis
+`noInstall` and the full statement is refuted by a witness in Props.lean.
 -/
 import OG.C17.Model
 
@@ -98,9 +101,37 @@ def SpecState.setSnapshot (s : SpecState) (sn : Option Snapshot) : SpecState :=
   | none => s
   | some sn => if sn.isValid then { s with snap := sn } else s
 
-/-- `Save(hardState, entries, snapshot)` -/
-def SpecState.save (s : SpecState) (hs : Option HardState) (new : List Entry) (sn : Option Snapshot) : SpecState :=
+/-- `Save` without the install rule: entries, hard state, snapshot, each on its own. This is
+what the store does (see `save`). -/
+def SpecState.saveKeep (s : SpecState) (hs : Option HardState) (new : List Entry) (sn : Option Snapshot) : SpecState :=
   ((s.append new).setHardState hs).setSnapshot sn
+
+/-- `Save(hardState, entries, snapshot)`.  A valid snapshot whose index lies beyond the log
+is a snapshot *install* (raft hands one over after it received it from the leader): it
+replaces the log — `MemoryStorage.ApplySnapshot`: nothing is retained, the first index is the
+one after the snapshot. -/
+def SpecState.save (s : SpecState) (hs : Option HardState) (new : List Entry) (sn : Option Snapshot) : SpecState :=
+  let s1 := s.saveKeep hs new sn
+  match sn with
+  | some x =>
+    if x.isValid && decide ((s.append new).logLast < x.index) then { s1 with first := x.index + 1, ents := [] } else s1
+  | none => s1
+
+/-- the snapshot of a `Save` is not an install -/
+def SpecState.noInstall (s : SpecState) (new : List Entry) (sn : Option Snapshot) : Prop :=
+  ∀ x, sn = some x → x.isValid = true → x.index ≤ (s.append new).logLast
+
+theorem SpecState.save_eq_keep (s : SpecState) (hs : Option HardState) (new : List Entry) (sn : Option Snapshot)
+    (h : s.noInstall new sn) : s.save hs new sn = s.saveKeep hs new sn := by
+  unfold SpecState.save
+  cases sn with
+  | none => rfl
+  | some x =>
+    by_cases hv : x.isValid = true
+    · have := h x rfl hv
+      have hn : ¬ ((s.append new).logLast < x.index) := by omega
+      simp [hv, hn]
+    · simp [hv]
 
 /-- `CreateSnapshot(i, cs, data)` -/
 def SpecState.createSnapshot (s : SpecState) (i : Nat) (sn : Snapshot) : Except Err SpecState :=
